@@ -79,13 +79,16 @@ Theorem pattern_truncated_within_one_pixel :
       px * r = tx0 - minx /\ - r < py * r - (maxy - ty1) < r.
 Proof. exact pattern_truncated_lemma. Qed.
 
-(* Finding meta-dedup-by-bbox-drops-tile: "every requested valid tile is stored by some step of the creation plan"
-   is false of the code as it is (meta tiles are de-duplicated by bbox; buffer >= meta tile). *)
-Theorem every_requested_tile_is_produced_refuted :
-  exists m tiles plan, mwf m /\ create_plan m true false false tiles = Some plan /\
-    exists c, In c tiles /\ ~ In c (flat_map snd plan) /\
-              fst (fst c) < fst (grid_size (mg_grid m) (snd c)) /\ 0 <= fst (fst c).
-Proof. exact MetaGrid_proofs.every_requested_tile_is_produced_refuted. Qed.
+(* Every requested tile is produced: whatever the creation strategy (no meta tiling, request-minimising meta tile,
+   one meta tile per main tile, bulk), every requested valid tile of a level is among the tiles handed to the
+   store calls of the creation plan.  (Meta tiles are identified by their main tile; before the repair of finding
+   meta-dedup-by-bbox-drops-tile they were identified by bbox and this statement was false.) *)
+Theorem every_requested_tile_is_produced :
+  forall m has_meta minimize bulk (tiles : list coord) z plan,
+    mwf m -> (forall c, In c tiles -> valid_tile m c /\ snd c = z) ->
+    create_plan m has_meta minimize bulk tiles = Some plan ->
+    forall c, In c tiles -> In c (flat_map snd plan).
+Proof. exact every_requested_tile_is_produced_lemma. Qed.
 
 (* The request-minimising meta tile (minimize_meta_requests) of a non-empty list of tiles of one level exists and
    its pattern contains every requested tile; pattern_truncated_within_one_pixel-style alignment of its crop
